@@ -194,6 +194,47 @@ def to_grid(n):
     return g
 
 
+def wreck(v, depth=0):
+    """Destroy, in place, whatever is mutable in a value a caller got back from the library (the caller owns it)."""
+    if depth > 6:
+        return
+    if isinstance(v, hszinc.Grid):
+        for row in list(v):
+            for x in list(row.values()):
+                wreck(x, depth + 1)
+            row.clear()
+            row['wrecked'] = 'x'
+        try:
+            del v[:]
+        except Exception:   # noqa
+            pass
+        for k in list(v.metadata.keys()):
+            wreck(v.metadata[k], depth + 1)
+            del v.metadata[k]
+        v.metadata['wrecked'] = 'x'
+        for c in list(v.column.keys()):
+            m = v.column[c]
+            if hasattr(m, 'keys'):
+                for k in list(m.keys()):
+                    wreck(m[k], depth + 1)
+                    del m[k]
+    elif isinstance(v, list):
+        for x in v:
+            wreck(x, depth + 1)
+        del v[:]
+        v.append('wrecked')
+    elif isinstance(v, dict):
+        for x in list(v.values()):
+            wreck(x, depth + 1)
+        v.clear()
+        v['wrecked'] = 'x'
+    elif isinstance(v, hszinc.XStr):
+        try:
+            v.data = b'wrecked' if not isinstance(v.data, str) else 'wrecked'
+        except Exception:   # noqa
+            pass
+
+
 def from_hs(v):
     """Classify an hszinc API value into N-form with a strict, own ladder."""
     if v is None:
